@@ -48,6 +48,10 @@ class State:
         self.streams = {}       # sid -> list of segments
         self.next_oid = [0]
         self.writelog = None    # shared list during loop dry-runs
+        self.inplace = {}       # container field/var -> number of in-place mutations (alias staleness check)
+        self.nwrites = [0]      # shared counter of state writes (to reject side effects in conditional expressions)
+        self.rebound = set()    # list fields assigned a fresh list object in this function
+        self.rebindcnt = {}     # list field -> number of times it was bound to another list object
 
     def fork(self):
         s = State.__new__(State)
@@ -59,6 +63,10 @@ class State:
         s.streams = {k: list(v) for k, v in self.streams.items()}
         s.next_oid = self.next_oid
         s.writelog = self.writelog
+        s.inplace = dict(self.inplace)
+        s.nwrites = self.nwrites
+        s.rebound = set(self.rebound)
+        s.rebindcnt = dict(self.rebindcnt)
         return s
 
     def new_oid(self):
@@ -206,6 +214,7 @@ class Exec:
         raise Unsupported(f"bad location {loc}")
 
     def write(self, st, loc, v, structural=True, _log=True):
+        st.nwrites[0] += 1
         if st.writelog is not None and _log:
             st.writelog.append((root_of(loc), loc, structural))
         k = loc[0]
@@ -235,9 +244,18 @@ class Exec:
             parent = self.read(st, loc[1])
             if not isinstance(parent, VSeq):
                 raise Unsupported("element write on non-sequence")
+            if _log:
+                key = self.epoch_key(loc)
+                st.inplace[key] = st.inplace.get(key, 0) + 1
+                self.check_rebinds(st, key)
             self.write(st, loc[1], self.seq_set(st, parent, loc[2], v), structural=False, _log=False)
         else:
             raise Unsupported(f"bad location {loc}")
+
+    def check_rebinds(self, st, key):
+        must = getattr(self, "rebind_keys", ())
+        if key in must and key not in st.rebound and not self.dry:
+            raise Unsupported("in-place mutation of a list that the contract promises to replace by a new object first")
 
     def epoch_key(self, loc):
         """structural epoch of the innermost container field/var along loc"""
@@ -320,7 +338,7 @@ class Exec:
             if z3.is_int_value(z3.simplify(v.ln)) and z3.simplify(v.ln).as_long() == 0 \
                     and len(self.flat.sorts(t.elem)) != len(v.comps):
                 # the empty list literal stored where a list of objects is declared
-                comps = [z3.K(z3.IntSort(), z3.FreshConst(srt, "empty")) for srt in self.flat.sorts(t.elem)]
+                comps = [z3.Const(fresh_name("nil"), z3.ArraySort(z3.IntSort(), srt)) for srt in self.flat.sorts(t.elem)]
                 return VSeq(comps, z3.IntVal(0), t.elem, t.kind)
             return VSeq(v.comps, v.ln, v.et, t.kind if v.kind == "list" and t.kind != "list" else v.kind)
         return v
@@ -454,7 +472,15 @@ class Exec:
     def e_Name(self, node, st):
         n = node.id
         if n in st.env:
-            return st.env[n]
+            v = st.env[n]
+            if not self.spec:
+                for x in (v.items if isinstance(v, VTuple) else [v]):
+                    al = getattr(x, "_alias", None)
+                    # (an alias of a list object the field no longer refers to cannot be changed through the field)
+                    if al is not None and st.rebindcnt.get(al[0], 0) == al[2] and st.inplace.get(al[0], 0) != al[1]:
+                        raise Unsupported(f"local {n} aliases a list that was mutated in place afterwards "
+                                          "(lists are modelled by value)")
+            return v
         if n == "result" and self.spec and self.result is not None:
             return self.result
         if n in ("True", "False"):
@@ -522,7 +548,8 @@ class Exec:
     def e_List(self, node, st):
         items = [self.eval(e, st) for e in node.elts]
         if not items:
-            return VSeq([z3.K(z3.IntSort(), z3.IntVal(0))], z3.IntVal(0), TInt(), "list")
+            # a named (otherwise unconstrained) cell array: count terms over it are valid triggers
+            return VSeq([z3.Const(fresh_name("nil"), z3.ArraySort(z3.IntSort(), z3.IntSort()))], z3.IntVal(0), TInt(), "list")
         et = self.type_of(self.deref(st, items[0]))
         comps = None
         for i, it in enumerate(items):
@@ -561,7 +588,10 @@ class Exec:
             mark = len(st.pc)
             st.pc += guards
             inner = len(st.pc)
+            w0 = st.nwrites[0]
             v = self.eval(e, st)
+            if i > 0 and st.nwrites[0] != w0 and not self.spec:
+                raise Unsupported("state change inside a short-circuited operand")
             learned = st.pc[inner:]
             del st.pc[mark:]
             g = z3.And(*guards) if guards else None
@@ -622,7 +652,10 @@ class Exec:
         for guard, sub in ((c, node.body), (z3.Not(c), node.orelse)):
             mark = len(st.pc)
             st.pc.append(guard)
+            w0 = st.nwrites[0]
             val = self.eval(sub, st)
+            if st.nwrites[0] != w0 and not self.spec:
+                raise Unsupported("state change inside a conditional expression")
             kept += [z3.Implies(guard, f) for f in st.pc[mark + 1:]]
             del st.pc[mark:]
             if sub is node.body:
@@ -847,6 +880,11 @@ class Exec:
                 v = obj.fields[name]
                 if isinstance(v, VStruct) and isinstance(base, VRef):
                     return VRef(("vfield", base.loc, name), v.cls)
+                if isinstance(v, VSeq) and isinstance(base, VRef) and not self.spec:
+                    # the model copies lists by value; remember which container this value aliases
+                    v = VSeq(v.comps, v.ln, v.et, v.kind)
+                    key = ("field", base.loc, name)
+                    v._alias = (key, st.inplace.get(key, 0), st.rebindcnt.get(key, 0))
                 return v
             g = self.repo.find_getter(cls, attr) if cls in self.repo.classes else None
             if g is not None:
@@ -1161,7 +1199,8 @@ def _band(x, y):
     for a, b in ((x, y), (y, x)):
         m = _mask_bits(b)
         if m is not None:
-            return a % m        # x & (2**n - 1) == x mod 2**n  (exact for every Python int)
+            # x & (2**n - 1) == x mod 2**n  (exact for every Python int)
+            return a % m if z3.is_int_value(m) else TH.pmod(a, m)
     return TH.band(x, y)
 
 
